@@ -1,6 +1,7 @@
 import TexelVerif.Chess.SAN
 import TexelVerif.Chess.TextIdx
 import TexelVerif.Chess.Pgn
+import TexelVerif.Chess.PgnTree
 import TexelVerif.Drv.Chess
 /-! Line protocol for the text formats (property C17): move text both ways, FEN / SAN / UCI / PGN byte strings. -/
 namespace Drv.Text
@@ -82,6 +83,42 @@ def dumpGame (g : Game) : String :=
   " fen=" ++ fen ++ " t=" ++ dumpNode g.arena (g.arena.size + 1) 0 true ++
   " w=" ++ hexOf (writeFrom (g.arena.size + 1) g.arena 0 g.start)
 
+/-- token-level cross-check (`Chess/PgnTree.lean`): when the move section of the first game consists of plain SYMBOL /
+    `(` / `)` tokens only (plus the comments, NAGs, move numbers and periods that `parsePgn` skips), the tree of the arena
+    parser must be the tree `parseLine` builds from the same token stream -/
+partial def scanAll (cs : List Char) (acc : Array Pgn.Tok) : Array Pgn.Tok :=
+  let (t, rest) := Pgn.nextTok cs
+  if t.ty == .eof then acc else scanAll rest (acc.push t)
+
+open Pgn PgnTree in
+def arenaTree (arena : Array NodeR) : Nat → Nat → List (Tree (List Char))
+  | 0, _ => []
+  | f + 1, id =>
+    match arena[id]? with
+    | none => []
+    | some n => n.children.map fun c => Tree.node ((arena[c]?).map (·.txt) |>.getD []) (arenaTree arena f c)
+
+open PgnTree in
+partial def treeEq : List (Tree (List Char)) → List (Tree (List Char)) → Bool
+  | [], [] => true
+  | Tree.node a ka :: ra, Tree.node b kb :: rb => a == b && treeEq ka kb && treeEq ra rb
+  | _, _ => false
+
+open Pgn PgnTree in
+def crossCheck (s : List Char) (games : List Game) : Bool :=
+  let toks := (scanAll (tokenChars s) #[]).toList
+  -- only inputs without a tag section and without result / annotated symbols are in the sublanguage
+  let plain := toks.all fun t =>
+    (t.ty == .symbol && !isResultText t.s && !(t.s.getLast?.map fun c => isAnn c || c == '+').getD false) ||
+    t.ty == .lparen || t.ty == .rparen || t.ty == .comment || t.ty == .nag || t.ty == .integer || t.ty == .period
+  if !plain then true else
+  let tk : List (Tk (List Char)) := toks.filterMap fun t =>
+    if t.ty == .symbol then some (Tk.sym t.s) else if t.ty == .lparen then some Tk.lp else if t.ty == .rparen then some Tk.rp else none
+  let (kids, rest) := parseLine (tk.length + 1) tk
+  match games with
+  | [g] => if rest.isEmpty then treeEq kids (arenaTree g.arena (g.arena.size + 1) 0) else true
+  | _ => true
+
 open Pgn in
 def pgnxLine (s : List Char) : String :=
   let cs := tokenChars s
@@ -93,7 +130,8 @@ def pgnxLine (s : List Char) : String :=
      | some (.fen e) => ["err fen:" ++ e.toString]
      | some .oob => ["model-oob"]
      | some .fuel => ["model-fuel"])
-  if parts.isEmpty then "nogame" else " | ".intercalate parts
+  if err.isNone && !crossCheck s games then "model-split(parseLine)"
+  else if parts.isEmpty then "nogame" else " | ".intercalate parts
 
 /-! ### UCI command line: tokenizer + the `position` command + the `verifdump` hook -/
 
